@@ -14,6 +14,7 @@ import (
 	"fmt"
 	"os"
 	"os/exec"
+	"path/filepath"
 	"reflect"
 	"runtime"
 	"strconv"
@@ -228,6 +229,13 @@ func runChild(c *vf.Ctx, exe, spec string) (last int, done bool, tail string) {
 		}
 	}
 	werr := cmd.Wait()
+	if !done { // a dead child cannot remove its own scratch directory
+		base := os.Getenv("VERIF_SCRATCH")
+		if base == "" {
+			base = "/var/tmp"
+		}
+		os.RemoveAll(filepath.Join(base, fmt.Sprintf("verif-%s-%d", c.Prop, cmd.Process.Pid)))
+	}
 	tail = fmt.Sprintf("%v; stderr: %s", werr, firstLines(errBuf.String(), 6))
 	return last, done, tail
 }
